@@ -313,6 +313,11 @@ func (e *Engine) verifyFunction(fn *ssa.Function, safety bool) (fr *Frame, err e
 				e.specError(f.name, en, err)
 				continue
 			}
+			if c.Assumed && !hasTag(en.Tags, "checked") {
+				// partial contract: an assumed boundary contract of which only the clauses tagged [checked] (and the
+				// assert_at clauses) are verified against the body
+				continue
+			}
 			if c.Flags["defines"] {
 				// definitional clause: the function's result defines an uninterpreted spec relation (determinism assumed)
 				f.notes["definitional contract (the function defines the spec relation; determinism in the argument contents assumed): "+f.name] = true
